@@ -45,6 +45,39 @@ structure DocSheet where
   elem : SheetElem := {}
   deriving Repr
 
+/-! ### the `media` attribute of `<style>` / `<link>` (three lines of `find_stylesheets`) -/
+
+/-- The ASCII characters `str.strip()` removes (the harness draws attribute texts from ASCII). -/
+def pyIsSpace (c : Char) : Bool :=
+  c == ' ' || c == '\t' || c == '\n' || c == '\r' || c.toNat == 0x0b || c.toNat == 0x0c ||
+  (0x1c ≤ c.toNat && c.toNat ≤ 0x1f)
+
+/-- `str.strip()`. -/
+def pyStrip (s : List Char) : List Char :=
+  ((s.dropWhile pyIsSpace).reverse.dropWhile pyIsSpace).reverse
+
+/-- `str.split(sep)` for a one-character separator (always at least one part). -/
+def pySplitOn (sep : Char) : List Char → List (List Char)
+  | [] => [[]]
+  | c :: rest =>
+    if c == sep then [] :: pySplitOn sep rest
+    else match pySplitOn sep rest with
+      | [] => [[c]]          -- unreachable: the result is never empty
+      | p :: ps => (c :: p) :: ps
+
+/-- `str.lower()` on ASCII text. -/
+def pyLower (s : List Char) : List Char := s.map Char.toLower
+
+/-- ```
+media_attr = element.get('media', '').strip() or 'all'
+media = [media_type.strip().lower() for media_type in media_attr.split(',')]
+```
+(`.lower()` since commit b7ca8f6: `media="PRINT"` was compared case-sensitively before). -/
+def attrMedia (text : String) : List String :=
+  let stripped := pyStrip text.toList
+  let mediaAttr := if stripped.isEmpty then "all".toList else stripped
+  (pySplitOn ',' mediaAttr).map (fun part => String.ofList (pyLower (pyStrip part)))
+
 /-- `element_has_link_type(element, link_type)`. -/
 def hasLinkType (rels : List String) (linkType : String) : Bool :=
   rels.any (fun token => String.ofList (token.toList.map Char.toLower) == linkType)
@@ -74,6 +107,8 @@ structure DocElem where
   hits : List MatchRef
   /-- attributes of the element (`element.get`) -/
   elemAttrs : List (String × Val) := []
+  /-- `character_ratio` of the element's own style (`none` = the defaults of `styleFor`) -/
+  ratios : Option (Rat × Rat) := none
   deriving Repr
 
 structure Doc where
@@ -124,7 +159,9 @@ def sheetMatches (doc : Doc) (e : DocElem) : List (SheetMatches Casc) :=
 /-- `cascaded_styles.get((element, pseudo), {})` with the weights dropped. -/
 def elemOf (doc : Doc) (e : DocElem) (pseudo : Option String) : Except CErr Elem := do
   let st ← elementCascade e.attrs (sheetMatches doc e) pseudo
-  pure { cascaded := st.map (fun p => (p.1, p.2.1)), pseudo := pseudo, attrs := e.elemAttrs }
+  -- a pseudo-element has its own font properties: its ratios are the defaults of `styleFor`
+  pure { cascaded := st.map (fun p => (p.1, p.2.1)), pseudo := pseudo, attrs := e.elemAttrs,
+         ratios := if pseudo.isSome then none else e.ratios }
 
 def chainOf (doc : Doc) : List DocElem → Except CErr (List Elem)
   | [] => .ok []
